@@ -188,6 +188,9 @@ pub fn run(tier: Tier) -> Report {
         }
     }
     if tier == Tier::Quick {
+        for contacts in 1..=3usize {
+            cfgs.push(Cfg { contacts, outages: false, minutes: 60, latency: 20, unreachable_hearsay: contacts == 2, rng_seed: 1 + seed });
+        }
         cfgs.push(Cfg { contacts: 1, outages: true, minutes: 70, latency: 20, unreachable_hearsay: false, rng_seed: 1 + seed });
     }
     let outs = par_map(&cfgs, |_, cfg| {
